@@ -44,6 +44,7 @@ type sOpts struct {
 	Dpad   int    `json:"dpad"`
 	Ipad   int    `json:"ipad"`
 	Codec  string `json:"codec"`
+	Zero   bool   `json:"zero"` // ZeroLengthSectionAsEOF (crash sessions: a resume reads through null bytes)
 }
 
 type sState struct {
@@ -175,6 +176,9 @@ func (o sOpts) carOpts() []carv2.Option {
 	} else {
 		opts = append(opts, carv2.UseIndexCodec(multicodec.CarMultihashIndexSorted))
 	}
+	if o.Zero {
+		opts = append(opts, carv2.ZeroLengthSectionAsEOF(true))
+	}
 	return opts
 }
 
@@ -248,7 +252,7 @@ func (s *rwStore) AllKeys() ([]cid.Cid, error, bool) {
 	}
 	return out, nil, true
 }
-func (s *rwStore) Roots() ([]cid.Cid, error) { return s.bs.Roots() }
+func (s *rwStore) Roots() ([]cid.Cid, error)   { return s.bs.Roots() }
 func (s *rwStore) IndexRecs() ([]string, bool) { return iterIndex(s.bs.Index()) }
 
 func iterIndex(ix index.Index) ([]string, bool) {
@@ -257,7 +261,10 @@ func iterIndex(ix index.Index) ([]string, bool) {
 		return nil, false
 	}
 	var out []string
-	it.ForEach(func(m multihash.Multihash, off uint64) error { out = append(out, fmt.Sprintf("%x@%d", []byte(m), off)); return nil })
+	it.ForEach(func(m multihash.Multihash, off uint64) error {
+		out = append(out, fmt.Sprintf("%x@%d", []byte(m), off))
+		return nil
+	})
 	sort.Strings(out)
 	return out, true
 }
@@ -292,7 +299,7 @@ func (s *scStore) Get(c cid.Cid) ([]byte, error) {
 	}
 	return a, nil
 }
-func (s *scStore) GetSize(c cid.Cid) (int, error)     { return -2, nil }
+func (s *scStore) GetSize(c cid.Cid) (int, error)    { return -2, nil }
 func (s *scStore) AllKeys() ([]cid.Cid, error, bool) { return nil, nil, false }
 func (s *scStore) Roots() ([]cid.Cid, error)         { return s.sc.Roots(), nil }
 func (s *scStore) IndexRecs() ([]string, bool)       { return iterIndex(s.sc.Index()) }
@@ -644,6 +651,14 @@ func reopenArgs(s *sState, how string) ([]string, sOpts) {
 		o.V1 = !o.V1
 	}
 	return roots, o
+}
+
+// isEnvFault: the failure names the harness's own scratch path or the process's resource limits.
+func isEnvFault(detail, dir string) bool {
+	if strings.Contains(detail, "too many open files") || strings.Contains(detail, "no space left on device") || strings.Contains(detail, "cannot allocate memory") {
+		return true
+	}
+	return strings.Contains(detail, "no such file or directory") && strings.Contains(detail, "/vh-store-")
 }
 
 var probeCid = func() cid.Cid { return alphaByID["b6"].Cid }
@@ -1012,7 +1027,7 @@ func runStoreReplay(args []string) int {
 				rep.inconclusive(err.Error())
 				return
 			}
-			defer os.RemoveAll(dir)
+			defer func() { os.RemoveAll(dir) }()
 			for j := range jobs {
 				var v *Violation
 				func() {
@@ -1027,6 +1042,22 @@ func runStoreReplay(args []string) int {
 						v = compareUninterrupted(g, j.init, j.kind, j.ops, dir, rep)
 					}
 				}()
+				if v != nil && isEnvFault(v.Detail, dir) {
+					// the harness's own scratch directory or descriptors failed it: not an observation of go-car.
+					// Take a fresh directory and run the path again; only a repeated failure is reported, as inconclusive.
+					if nd, err := os.MkdirTemp(base, "vh-store-"); err == nil {
+						os.RemoveAll(dir)
+						dir = nd
+						v = runStorePath(g, j.init, j.kind, j.ops, dir, rep, c05 == 1)
+						if v == nil && c12 == 1 {
+							v = compareUninterrupted(g, j.init, j.kind, j.ops, dir, rep)
+						}
+					}
+					if v != nil && isEnvFault(v.Detail, dir) {
+						rep.inconclusive("environment fault: " + v.Detail)
+						v = nil
+					}
+				}
 				key := j.kind + "|" + j.init.key + "|" + fmt.Sprint(j.ops)
 				rep.eval(key, len(j.ops) > 1)
 				if v != nil {
@@ -1080,9 +1111,9 @@ func runStoreReplay(args []string) int {
 // replayStoreCase re-executes one stored violation record.
 func replayStoreCase(graphPath string, replay json.RawMessage) (*Violation, error) {
 	var r struct {
-		Kind string  `json:"kind"`
-		Init sState  `json:"init"`
-		Ops  []sOp   `json:"ops"`
+		Kind string `json:"kind"`
+		Init sState `json:"init"`
+		Ops  []sOp  `json:"ops"`
 	}
 	if err := json.Unmarshal(replay, &r); err != nil {
 		return nil, err
